@@ -50,6 +50,7 @@ type layers struct {
 	limit    int
 	admitKey string
 	remove   func(key string) // partitioned strategies: remove the partition of that key (its outstanding tokens stay valid)
+	setLimit func(int)        // the strategy's own SetLimit (what the limiter calls at every window roll-over)
 }
 
 func keyCtx(k string) context.Context {
@@ -128,6 +129,7 @@ func buildLayers(r *rand.Rand) layers {
 		panic(err)
 	}
 	ly.lim = dl
+	ly.setLimit = st.SetLimit
 	return ly
 }
 
@@ -180,6 +182,19 @@ func sequentialCase(idx int64, r *rand.Rand) {
 			}
 			continue
 		}
+		if r.IntN(12) == 0 {
+			// the limit moves (also below what is outstanding): nothing that was granted is revoked or written off
+			v := 1 + r.IntN(8)
+			ly.setLimit(v)
+			ops = append(ops, fmt.Sprintf("strategy.SetLimit(%d) with %d outstanding", v, len(held)))
+			if v < len(held) {
+				rt.Count("limit_lowered_below_outstanding_tokens", 1)
+			}
+			if !check() {
+				return
+			}
+			continue
+		}
 		if r.IntN(5) < 3 {
 			k := ly.keys[r.IntN(len(ly.keys))]
 			l, ok := ly.lim.Acquire(keyCtx(k))
@@ -213,6 +228,7 @@ func sequentialCase(idx int64, r *rand.Rand) {
 	if !check() {
 		return
 	}
+	ly.setLimit(ly.limit)
 	// the limiter again admits its full limit and not more (partitioned: through a key with a share)
 	k := ly.keys[0]
 	var again []core.Listener
@@ -653,6 +669,115 @@ func gaugeBursts(idx int64, r *rand.Rand) {
 	rt.Distinct(fmt.Sprintf("gaugebursts|%v", cfg))
 }
 
+// sharedContextCase: callers queued at a queue limiter with one and the same context value (context.Background(), a
+// fanned-out request context).  The oldest times out while the others still wait; the holder then completes.  Every
+// caller is an individual: the one that left holds nothing, the unit goes to a caller still waiting, and after all
+// completions every count is zero and the limit is admitted again.
+func sharedContextCase(t *testing.T, idx int64, r *rand.Rand) {
+	ord := []limiter.QueueOrdering{limiter.OrderingFIFO, limiter.OrderingLIFO}[r.IntN(2)]
+	evict := r.IntN(2) == 0
+	T := time.Duration(10+r.IntN(90)) * time.Millisecond
+	nW := 2 + r.IntN(3)
+	var sig string
+	var detail rt.J
+	bubble(t, func(t *testing.T) {
+		st := strategy.NewSimpleStrategy(1)
+		dl, err := limiter.NewDefaultLimiter(limit.NewFixedLimit("c02", 1, nil), 1e9, 1e9, 1e5, 100, st, limit.NoopLimitLogger{}, core.EmptyMetricRegistryInstance)
+		if err != nil {
+			panic(err)
+		}
+		gate := inject.NewGate(dl)
+		q := limiter.NewQueueBlockingLimiterFromConfig(gate, limiter.QueueLimiterConfig{Ordering: ord, MaxBacklogSize: 10, MaxBacklogTimeout: T, BacklogEvictDoneCtx: evict})
+		var shared context.Context = context.Background()
+		if r.IntN(2) == 0 {
+			shared = context.WithValue(context.Background(), matchers.LookupPartitionContextKey, "tenant")
+		}
+		holder, ok := q.Acquire(shared)
+		if !ok {
+			panic("c02: first unit refused")
+		}
+		type wt struct {
+			done atomic.Bool
+			ok   bool
+			l    core.Listener
+		}
+		ws := make([]*wt, nW)
+		gap := T / time.Duration(nW+1)
+		for i := range ws {
+			w := &wt{}
+			ws[i] = w
+			go func() { w.l, w.ok = q.Acquire(shared); w.done.Store(true) }()
+			synctest.Wait()
+			time.Sleep(gap)
+		}
+		// now = nW*gap < T after the first arrival; move just past the first caller's time-out
+		time.Sleep(T - time.Duration(nW)*gap + time.Microsecond)
+		synctest.Wait()
+		fail := func(s string, d rt.J) {
+			if sig == "" {
+				sig, detail = s, d
+			}
+		}
+		if !ws[0].done.Load() || ws[0].ok {
+			fail("timed-out-caller-not-refused", rt.J{})
+		}
+		holder.OnSuccess()
+		synctest.Wait()
+		granted := 0
+		for _, w := range ws[1:] {
+			if w.done.Load() && w.ok && w.l != nil {
+				granted++
+			}
+		}
+		if granted != 1 {
+			fail("release-not-handed-to-exactly-one-caller-still-waiting", rt.J{"granted": granted, "still_waiting_before": nW - 1})
+		}
+		// complete grants one by one until nobody holds anything (each completion serves the next caller still waiting)
+		for round := 0; round < nW+1; round++ {
+			for _, w := range ws {
+				if w.done.Load() && w.ok && w.l != nil {
+					w.l.OnSuccess()
+					w.l = nil
+				}
+			}
+			synctest.Wait()
+		}
+		time.Sleep(2 * T)
+		synctest.Wait()
+		for i, w := range ws {
+			if !w.done.Load() {
+				fail("caller-never-returned", rt.J{"caller": i})
+			} else if (w.l != nil) != false && !w.ok {
+				fail("listener-returned-iff-ok-violated", rt.J{"caller": i})
+			}
+		}
+		for _, w := range ws {
+			if w.done.Load() && w.ok && w.l != nil {
+				w.l.OnSuccess()
+				w.l = nil
+			}
+		}
+		synctest.Wait()
+		if b, g, o, bl := st.GetBusyCount(), dl.VerifInFlight(), gate.Outstanding(), q.VerifBacklogLen(); b != 0 || g != 0 || o != 0 || bl != 0 {
+			fail("counts-not-zero-after-every-grant-completed", rt.J{"busy": b, "inflight_gauge": g, "delegate_outstanding": o, "backlog": bl})
+		}
+		if l, ok := q.Acquire(context.Background()); !ok {
+			fail("full-limit-not-admitted-after-all-completed", rt.J{})
+		} else {
+			l.OnIgnore()
+		}
+		synctest.Wait()
+	})
+	rt.Count("shared_context_cases", 1)
+	cfg := rt.J{"ordering": ord, "evict": evict, "timeout": T.String(), "callers_sharing_one_context": nW}
+	if sig != "" {
+		detail["config"] = cfg
+		rt.Violation("C02/queue-shared-context/"+sig, idx, detail)
+		return
+	}
+	rt.Distinct(fmt.Sprintf("shared|%v", cfg))
+}
+
 // ------------------------------------------------------------------ D: pools, behaviourally
 
 func poolCase(t *testing.T, idx int64, r *rand.Rand) {
@@ -753,6 +878,8 @@ func TestCheck(t *testing.T) {
 		switch m := idx % 32; {
 		case m == 7:
 			gaugeBursts(idx, r)
+		case m == 27:
+			sharedContextCase(t, idx, r)
 		case m < 8:
 			sequentialCase(idx, r)
 		case m < 28:
